@@ -752,8 +752,12 @@ void StatementExecutor::execute_self_member_assignment(
 
     Variable *self_member = &(it->second);
 
-    // constメンバへの代入チェック
-    if (self_member->is_const && self_member->is_assigned) {
+    // constメンバへの代入チェック。レシーバーが const オブジェクトなら self
+    // 自体が const（self はレシーバーのコピーで is_const を引き継ぐ）なので、
+    // メンバーごとのフラグ（初期化の形式や同期で失われることがある）に
+    // 頼らず、a.x = v と同じく構造体自体の const でも拒否する
+    if (self_var->is_const ||
+        (self_member->is_const && self_member->is_assigned)) {
         std::string self_member_path = "self." + member_name;
         error_msg(DebugMsgId::CONST_REASSIGN_ERROR, self_member_path.c_str());
         throw std::runtime_error("Cannot assign to const self member: " +
